@@ -22,12 +22,14 @@ uint8_t STATEMENTS(char* self, uint8_t class_allowed) {
   if (nondet_u8() & 1) { st_threw = 1; __VERIF_throw_new((char*)&g__ZTIN10chaiscript9exception10eval_errorE, 160); return 0; }
   st_ret = nondet_u8() & 1; return (uint8_t)st_ret;
 }
-/* contract of Eol(): true => consumed at least one byte (the line end) */
+/* contract of Eol(): it first skips blanks and comments - any forward move, possibly up to the end of the input - and then reports whether a
+   line end followed (true => at least one byte, the line end, was consumed).  A false result does NOT mean the cursor did not move. */
 uint8_t EOL(char* self) {
   eol_calls++;
-  if (nondet_u8() & 1) return 0;
   uint64_t rem = P_POS(self) ? (uint64_t)(P_END(self) - P_POS(self)) : 0; if (rem == 0) return 0;
-  uint64_t k = nondet_u64(); __CPROVER_assume(k >= 1 && k <= rem && k <= 2); move_cursor(self, k); return 1;
+  uint64_t k = nondet_u64(); __CPROVER_assume(k <= rem); if (k) move_cursor(self, k);
+  if (k == 0) return 0;
+  return nondet_u8() & 1;
 }
 static struct node_stub { char* vptr; char pad[SZ_Node]; } file_node;
 static char* stack_slot[2]; static int n_build, n_push; static char* pushed;
